@@ -479,11 +479,15 @@ for r, what in (('R1', 'mixture_model_utils / cacgmm / cACG'), ('R2', 'cwmm / cb
 for r, what in (('R21', 'mixture_model_utils / cacgmm / cACG'), ('R22', 'cwmm / cbmm / Watson / Bingham / distribution.utils'), ('R23', 'gmm / gaussian / vMF / gcacgmm / vmfcacgmm'),
                 ('R24', 'beamformer / beamformer_wrapper / math.solve'), ('R25', 'permutation_alignment / initializers'), ('R26', 'mask_module / sxr_module / si_sdr / utils')):
     C.append(dict(id=f'N4-{r}-restructuring', kind='neutral', properties=ALLP, note=f'independent deeper restructuring of {what}', patch=f'neutral_patches/{r}.patch', edits=[],
-                  inconclusive_ok={'R23': ['C08'], 'R24': ['C12']}.get(r, [])))
+                  inconclusive_ok={'R23': ['C08']}.get(r, [])))
 # ---- third campaign: a free mix of both families (16-20 edits per patch)
 for r, what in (('R31', 'mixture_model_utils / cacgmm / cACG'), ('R32', 'cwmm / cbmm / Watson / Bingham / distribution.utils'), ('R33', 'gmm / gaussian / vMF / gcacgmm / vmfcacgmm'),
                 ('R34', 'beamformer / beamformer_wrapper / math.solve'), ('R35', 'permutation_alignment / initializers'), ('R36', 'mask_module / sxr_module / si_sdr / utils')):
-    C.append(dict(id=f'N6-{r}-mixed-refactoring', kind='neutral', properties=ALLP, note=f'independent mixed refactoring of {what}', patch=f'neutral_patches/{r}.patch', edits=[],
-                  inconclusive_ok={'R34': ['C12']}.get(r, [])))
+    C.append(dict(id=f'N6-{r}-mixed-refactoring', kind='neutral', properties=ALLP, note=f'independent mixed refactoring of {what}', patch=f'neutral_patches/{r}.patch', edits=[]))
+# ---- fourth campaign: a different developer's habits (from-imports and local aliases, @ / matmul / broadcasting instead of einsum, reduce(...)[..., None] for keepdims,
+#      while loops with counters, dispatch tables of lambdas / constants, conditional expressions, np.take / np.full / np.square / x ** 0.5, methods delegating to module functions)
+for r, what in (('R41', 'mixture_model_utils / cacgmm / cACG'), ('R42', 'cwmm / cbmm / Watson / Bingham / distribution.utils'), ('R43', 'gmm / gaussian / vMF / gcacgmm / vmfcacgmm'),
+                ('R44', 'beamformer / beamformer_wrapper / math.solve'), ('R45', 'permutation_alignment / initializers'), ('R46', 'mask_module / sxr_module / si_sdr / utils')):
+    C.append(dict(id=f'N8-{r}-other-habits', kind='neutral', properties=ALLP, note=f'independent refactoring in a different style of {what}', patch=f'neutral_patches/{r}.patch', edits=[]))
 out.write_text(json.dumps(C, indent=1))
 print(len(C), 'variants ->', out)
